@@ -18,13 +18,45 @@ func showRevErr(err error) string {
 
 func trimOneDot(s string) string { return strings.TrimSuffix(s, ".") }
 
+// refName is the harness's own RFC 1035 s3.5 / RFC 3596 s2.5 printer.
+func refName(a netip.Addr) string {
+	b := a.AsSlice()
+	var sb strings.Builder
+	if len(b) == 4 {
+		for i := 3; i >= 0; i-- {
+			fmt.Fprintf(&sb, "%d.", b[i])
+		}
+		return sb.String() + "in-addr.arpa"
+	}
+	for i := 15; i >= 0; i-- {
+		fmt.Fprintf(&sb, "%x.%x.", b[i]&15, b[i]>>4)
+	}
+	return sb.String() + "ip6.arpa"
+}
+
+func lowerASCII(s string) string {
+	b := []byte(s)
+	for i, c := range b {
+		if 'A' <= c && c <= 'Z' {
+			b[i] = c + 32
+		}
+	}
+	return string(b)
+}
+
 // rip: args = name (hex), ToASCII oracle of the name minus one trailing dot
 func execRIP(args []string) string {
-	a, err := netutil.IPFromReversedAddr(string(UnH(args[0])))
+	in := string(UnH(args[0]))
+	a, err := netutil.IPFromReversedAddr(in)
 	if err != nil {
 		return showRevErr(err)
 	}
-	return "ok:" + H(a.AsSlice())
+	out := "ok:" + H(a.AsSlice())
+	// the accepted-language clause, directly on the implementation (theorem C04_language)
+	if lowerASCII(trimOneDot(in)) != refName(a) {
+		out += " spec=bad:accepted-name-is-not-canonical-name-of-" + a.String()
+	}
+	return out
 }
 
 func showPrefix(p netip.Prefix, err error) string {
@@ -44,11 +76,29 @@ func execRExt(args []string) string {
 
 // toarpa: args = ip bytes (hex, any length)
 func execToArpa(args []string) string {
-	s, err := netutil.IPToReversedAddr(net.IP(UnH(args[0])))
+	ip := net.IP(UnH(args[0]))
+	s, err := netutil.IPToReversedAddr(ip)
 	if err != nil {
 		return showRevErr(err)
 	}
-	return "ok:" + HS(s)
+	out := "ok:" + HS(s)
+	// the round-trip clause, directly on the implementation (theorems C04_encode, C04_roundtrip)
+	want, ok := netip.AddrFromSlice(ip)
+	if ip4 := ip.To4(); ip4 != nil {
+		want, ok = netip.AddrFromSlice(ip4)
+	}
+	if !ok {
+		return out + " spec=bad:encoded-a-non-address"
+	}
+	if s != refName(want) {
+		return out + " spec=bad:not-the-canonical-name"
+	}
+	for _, sp := range []string{s, s + ".", strings.ToUpper(s), strings.ToUpper(s) + "."} {
+		if got, derr := netutil.IPFromReversedAddr(sp); derr != nil || got != want {
+			return out + " spec=bad:round-trip-" + HS(sp)
+		}
+	}
+	return out
 }
 
 func emitRev(g *G, fns []string, name string) {
